@@ -25,6 +25,10 @@ CHECKS = {
          'Library EvalScript/VerifyScript compared with a from-scratch interpreter (validated on 622 Core vectors) on every script of <=2 (3) tokens, '
          'grammar programs, reference-signed signature programs (all templates, CODESEPARATOR, FindAndDelete, P2SH), limit probes at L-3..L+3 and '
          'all 256 opcodes in six positions; accept/reject and exact final stacks.', TRUST),
+ 'C07': ('exploration', 'coverage-guided fuzzing (Atheris/libFuzzer) with the semantic oracle inside the target + Hypothesis truncation-at-every-position enumeration',
+         'Arbitrary bytes decoded into (flags, 64 tx variants, index, scriptSig, scriptPubKey) in five modes are run through VerifyScript/EvalScript; '
+         'only ValidationError may escape, inputs and cached ids must be unchanged and captured error state must respect the limits; eight (16) '
+         'campaigns from empty and seeded corpora; every truncation point of generated structured scripts.', TRUST),
  'C15': ('exploration', 'enumeration of every transaction count + Hypothesis witness/duplicate variants vs recursive reference merkle and weight formula',
          'Every n in 1..70 (1..300 thorough, powers of two +-1 to 1025) with generated witness subsets and duplicates is compared with a recursive '
          'textbook merkle definition over reference txids/wtxids; wrong declared roots must be refused; weights equal 3*stripped+full.', TRUST),
